@@ -877,7 +877,8 @@ class IrcState(IrcCommandDispatcher, log.Firewalled):
         for item in items.split():
             if ircutils.isUserHostmask(item):
                 name = ircutils.nickFromHostmask(item)
-                self.nicksToHostmasks[name] = name
+                self.nicksToHostmasks[name.lstrip('@%+&~!')] = \
+                        item.lstrip('@%+&~!')
             else:
                 name = item
             c.addUser(name)
